@@ -14,6 +14,10 @@ the moment the request is sent (k < 1000).  This node is node-A, the other node-
   rmw <usage|usage-read1|usage-read2|stats|stats-read1|status|status-read1>   obs: revoked <0|1> ack <..> att <..> data <0|1>
     a whole-record update of mapping M is between its read and its write (gated store) when the target client revokes M;
     afterwards the target client presents M's secret for the waiting tunnel.
+  twonode <plain|lead-space|lead-tab|lead-nl|lead-cr|trail-space|trail-nl|bar|case|hdr16>
+           obs: srcack <ack> fwdack <ack> sees <none|own|victim|both> victimready <0|1>
+    node-A holds the victim's waiting tunnel (mapping M) and the attacker's own tunnel (mapping F) whose id is a variant
+    spelling of the victim's; the attacker's target opens that id on node-B and is forwarded to node-A.
   e2e      obs: secret <set|empty> src <ack> pushed <0|1> leak <0|1> tgt <ack> data <0|1>
 A mapping created through the real PortMappingService without a secret, then listen client (mapping id) and target
 client (the generated secret) open the same tunnel: compared with the fixed expectation "both admitted, bytes flow".
@@ -147,8 +151,15 @@ def parseRmwObs : List String → Option (Bool × Obs)
     pure (r, o)
   | _ => none
 
+/-- `twonode <variant>`: two real nodes; the attacker's forwarded target must join its own tunnel only. -/
+def parseTwoNodeObs : List String → Option TwoNodeObs
+  | ["srcack", _, "fwdack", _, "sees", s, "victimready", v] =>
+    if v == "0" || v == "1" then some ⟨s == "victim" || s == "both", v == "1"⟩ else none
+  | _ => none
+
 def runModel (ts : List String) : String :=
   match ts with
+  | ["twonode", _] => "srcack ok fwdack ok sees own victimready 0"
   | ["rmw", wr] => (match rmwWriter wr with | some u => runRmwModel u | none => "bad-case")
   | _ =>
   if ts == ["e2e"] then "secret set src ok pushed 1 leak 0 tgt ok data 1" else
@@ -161,6 +172,8 @@ def runModel (ts : List String) : String :=
 
 def runHolds (caseToks obsToks : List String) : String :=
   -- `e2e` (legitimate parties are still served) is compared with the model line only; it is not the property
+  if caseToks.head? == some "twonode" then
+    (match parseTwoNodeObs obsToks with | some o => boolStr (holdsTwoNode o) | none => "false") else
   if caseToks.head? == some "rmw" then
     (match parseRmwObs obsToks with | some (r, o) => boolStr (holdsRevoked r o) | none => "false") else
   if caseToks == ["e2e"] then boolStr (obsToks.head? == some "secret") else
